@@ -5,8 +5,19 @@ import (
 	"io"
 	"time"
 
+	"github.com/beevik/etree"
 	dsig "github.com/russellhaering/goxmldsig"
 )
+
+// canonicalWriteSettings makes etree escape character data and attribute values
+// the way canonical XML does. In particular CR (and TAB/LF in attribute values)
+// are written as character references: written raw they are normalized away by
+// any XML parser, which changes the value a peer reads back and invalidates a
+// signature computed over the in-memory tree.
+var canonicalWriteSettings = etree.WriteSettings{
+	CanonicalText:    true,
+	CanonicalAttrVal: true,
+}
 
 // TimeNow is a function that returns the current time. The default
 // value is time.Now, but it can be replaced for testing.
